@@ -31,6 +31,15 @@ definition mirrors (under /repo/libs/core/include/fcppt/ unless noted):
                          success_opt.hpp, failure_opt.hpp, from_optional.hpp, join.hpp, apply.hpp (every failing either's failure goes into the
                          failure array, the first one is returned), sequence.hpp (rvalue source only: first failure, else all successes), first_success.hpp
 
+* `varMatch`, `varApply`, `varApply2`, `varToOptional` — variant/match.hpp, variant/apply.hpp (`std::visit(_function, move_if_rvalue<Variants>(_variants.impl())...)`), variant/to_optional.hpp
+* `tupMap`, `tupPushBack`, `tupConcat` — tuple/map.hpp, tuple/push_back.hpp + tuple/detail/push_back.hpp, tuple/concat.hpp (rvalue tuples only)
+* `arrMap`, `arrPushBack`, `arrJoin2/3`, `arrFromRange` — array/map.hpp, array/push_back.hpp, array/join.hpp + array/detail/join.hpp, array/append.hpp
+                         (first array an rvalue only), array/from_range.hpp (`move_if_rvalue<Source>(_source[Index])` when the size fits)
+* `recMap`, `recPermute`, `recMultiplyDisjoint` — record/map.hpp (rvalue records only), record/permute.hpp (`move_if_rvalue<Arg>(get<Label>(_arg))` in the
+                         order of the result's labels), record/multiply_disjoint.hpp
+* `contMake`           — container/make.hpp: moves out of every argument, whatever its value category (documented "by moving"); used by
+                         optional/to_container.hpp, which after fix 9030486 hands it its own copy of the element unless the optional is an rvalue
+
 The user's functions (part of the harness, see harness/c05.cpp): given an rvalue they move it
 through (same identity), given an lvalue they read it and make a new value (`derive`).
 -/
@@ -43,6 +52,9 @@ inductive Op where
   | moveIf | moveIfRvalue
   | eithMap | eithMapFailure | eithBind | eithMatch | eithSuccessOpt | eithFailureOpt | eithFromOptional | eithJoin
   | eithApply2 | eithSequence | eithFirstSuccess
+  | varMatch | varApply | varApply2 | varToOptional
+  | tupMap | tupPushBack | tupConcat | arrMap | arrPushBack | arrJoin2 | arrJoin3 | arrFromRange
+  | recMap | recPermute | recMultiplyDisjoint | contMake
   deriving DecidableEq, Repr, Inhabited
 
 /-- Arguments (value category, element identities in container order) and the operation's
@@ -79,6 +91,9 @@ def whole (rv : Bool) (a n : Nat) (d : Dest) : List Instr :=
 
 /-- the user's function (or the library) reads every element -/
 def readAll (a n : Nat) : List Instr := (List.range n).map fun i => .read a i
+
+/-- the listed elements of `a`, in this order (`record::permute`) -/
+def gather (a : Nat) (idx : List Nat) (m : Mode) (d : Dest) : List Instr := idx.map fun i => .xfer a i m d
 
 /-- `std::reverse(begin, end)`: ⌊n/2⌋ swaps -/
 def reverseInPlace (a n : Nat) : List Instr := (List.range (n / 2)).map fun i => .swap a i (n - 1 - i)
@@ -164,6 +179,18 @@ def prog (o : Op) (inp : Input) : List Instr :=
     match inp.par.findIdx? (· == 1) with
     | some k => ((List.range k).map fun j => .fresh (1000 + j) .drop) ++ [.fresh (1000 + k) .res]
     | none => (List.range inp.par.length).map fun j => .fresh (1000 + j) .res
+  -- variant<T, w1<T>, w2<T>>: the argument is the element held, par0 the alternative
+  | .varMatch | .varApply => callAll (rv 0) 0 (n 0) .res
+  | .varApply2 => readAll 1 (n 1) ++ callAll (rv 0) 0 (n 0) .res
+  | .varToOptional => if par0 = par1 then xferAll 0 (n 0) (fwd (rv 0)) .res else []
+  -- tuples, arrays, records: one element object per position
+  | .tupMap | .arrMap | .recMap => callAll (rv 0) 0 (n 0) .res
+  | .tupPushBack | .tupConcat | .arrPushBack | .arrJoin2 | .recMultiplyDisjoint =>
+    xferAll 0 (n 0) (fwd (rv 0)) .res ++ xferAll 1 (n 1) (fwd (rv 1)) .res
+  | .arrJoin3 => xferAll 0 (n 0) (fwd (rv 0)) .res ++ xferAll 1 (n 1) (fwd (rv 1)) .res ++ xferAll 2 (n 2) (fwd (rv 2)) .res
+  | .arrFromRange => if par0 = n 0 then xferAll 0 (n 0) (fwd (rv 0)) .res else []
+  | .recPermute => gather 0 inp.par (fwd (rv 0)) .res
+  | .contMake => xferAll 0 (n 0) .move .res ++ xferAll 1 (n 1) .move .res
 
 def jn (b : Bool) : String := if b then "J" else "N"
 def sf (b : Bool) : String := if b then "S" else "F"
@@ -195,6 +222,8 @@ def tag (o : Op) (inp : Input) : String :=
   | .eithApply2 => sf (inp.par.headD 0 == 1 && (inp.par.drop 1).headD 0 == 1)
   | .eithSequence => sf (inp.par.all (· == 1))
   | .eithFirstSuccess => sf (inp.par.any (· == 1))
+  | .varToOptional => jn (inp.par.headD 0 == (inp.par.drop 1).headD 0)
+  | .arrFromRange => jn (inp.par.headD 0 == inp.size 0)
   | _ => "-"
 
 /-! ## well-formed inputs -/
@@ -254,6 +283,27 @@ def shapeOk (o : Op) (inp : Input) : Bool :=
       inp.par.all (· ≤ 1)
   | .eithSequence => inp.args.length == 1 && catIn inp 0 [.rv] && inp.par.length == n 0 && inp.par.all (· ≤ 1)
   | .eithFirstSuccess => inp.args.length == 0 && inp.par.all (· ≤ 1)
+  | .varMatch | .varApply => inp.args.length == 1 && catIn inp 0 anyCat && n 0 == 1 && inp.par.length == 1 && inp.par.headD 0 ≤ 2
+  | .varApply2 =>
+    inp.args.length == 2 && catIn inp 0 anyCat && catIn inp 1 anyCat && n 0 == 1 && n 1 == 1 && inp.par.length == 2 &&
+      inp.par.all (· ≤ 2)
+  | .varToOptional =>
+    -- par = [alternative held, alternative asked for (0 or 1)]
+    inp.args.length == 1 && catIn inp 0 anyCat && n 0 == 1 && inp.par.length == 2 && inp.par.headD 0 ≤ 2 &&
+      (inp.par.drop 1).headD 0 ≤ 1
+  | .tupMap | .arrMap => inp.args.length == 1 && catIn inp 0 anyCat && inp.par.isEmpty
+  | .recMap => inp.args.length == 1 && catIn inp 0 [.rv] && inp.par.isEmpty
+  | .tupPushBack => inp.args.length == 2 && catIn inp 0 anyCat && catIn inp 1 anyCat && n 1 == 1 && inp.par.isEmpty
+  | .tupConcat => inp.args.length == 2 && catIn inp 0 [.rv] && catIn inp 1 [.rv] && inp.par.isEmpty
+  | .arrPushBack => inp.args.length == 2 && catIn inp 0 [.rv] && catIn inp 1 anyCat && n 1 == 1 && inp.par.isEmpty
+  | .arrJoin2 => inp.args.length == 2 && catIn inp 0 [.rv] && catIn inp 1 anyCat && inp.par.isEmpty
+  | .arrJoin3 => inp.args.length == 3 && catIn inp 0 [.rv] && catIn inp 1 anyCat && catIn inp 2 anyCat && inp.par.isEmpty
+  | .arrFromRange => inp.args.length == 1 && catIn inp 0 anyCat && inp.par.length == 1
+  | .recPermute =>
+    -- par = the permutation: position j of the result takes the element of position par[j]
+    inp.args.length == 1 && catIn inp 0 anyCat && inp.par.length == n 0 && decide inp.par.Nodup && inp.par.all (· < n 0)
+  | .recMultiplyDisjoint => inp.args.length == 2 && catIn inp 0 anyCat && catIn inp 1 anyCat && inp.par.isEmpty
+  | .contMake => inp.args.length == 2 && catIn inp 0 [.rv, .io] && catIn inp 1 [.rv, .io] && n 0 == 1 && n 1 == 1 && inp.par.isEmpty
 
 def wf (o : Op) (inp : Input) : Bool := idsOk inp && shapeOk o inp
 
@@ -265,7 +315,9 @@ def Op.all : List Op :=
    .popBack, .popFront, .moveRangeMap, .moveClear, .getOrInsert, .getOrInsertWithResult,
    .optMap, .optBind, .optFrom, .optAlt, .optFilter, .optToContainer, .optJoin, .optCombine, .optApply2, .optSequence, .optCat,
    .moveIf, .moveIfRvalue, .eithMap, .eithMapFailure, .eithBind, .eithMatch, .eithSuccessOpt, .eithFailureOpt, .eithFromOptional,
-   .eithJoin, .eithApply2, .eithSequence, .eithFirstSuccess]
+   .eithJoin, .eithApply2, .eithSequence, .eithFirstSuccess,
+   .varMatch, .varApply, .varApply2, .varToOptional, .tupMap, .tupPushBack, .tupConcat, .arrMap, .arrPushBack, .arrJoin2, .arrJoin3,
+   .arrFromRange, .recMap, .recPermute, .recMultiplyDisjoint, .contMake]
 
 def Op.name : Op → String
   | .algMap => "algmap" | .fold => "fold" | .foldBreak => "foldbrk" | .mapConcat => "mapcat" | .mapOptional => "mapopt"
@@ -278,5 +330,9 @@ def Op.name : Op → String
   | .eithMap => "eithmap" | .eithMapFailure => "eithmapfail" | .eithBind => "eithbind" | .eithMatch => "eithmatch"
   | .eithSuccessOpt => "eithsuccopt" | .eithFailureOpt => "eithfailopt" | .eithFromOptional => "eithfromopt"
   | .eithJoin => "eithjoin" | .eithApply2 => "eithapply2" | .eithSequence => "eithseq" | .eithFirstSuccess => "eithfirst"
+  | .varMatch => "varmatch" | .varApply => "varapply" | .varApply2 => "varapply2" | .varToOptional => "vartoopt"
+  | .tupMap => "tupmap" | .tupPushBack => "tuppush" | .tupConcat => "tupconcat"
+  | .arrMap => "arrmap" | .arrPushBack => "arrpush" | .arrJoin2 => "arrjoin2" | .arrJoin3 => "arrjoin3" | .arrFromRange => "arrfromrange"
+  | .recMap => "recmap" | .recPermute => "recpermute" | .recMultiplyDisjoint => "recmuldisj" | .contMake => "contmake"
 
 end Fcppt.C05
